@@ -132,7 +132,7 @@ func harness_C15_authz() {
 	f1 := c15Addrs[nondetChoice("from1", verifParam("naddr", len(c15Addrs)))]
 	f2 := c15Addrs[nondetChoice("from2", verifParam("naddr", len(c15Addrs)))]
 	var fromAddrs []c15Addr
-	layout := nondetChoice("layout", 6)
+	layout := nondetChoice("layout", 7)
 	switch layout {
 	case 0: // one From
 		hdr.Add("From", f1.text)
@@ -151,6 +151,9 @@ func harness_C15_authz() {
 		hdr.Add("From", "Team: "+f1.text+", "+f2.text+";")
 		fromAddrs = []c15Addr{f1, f2}
 	case 5: // no From
+	case 6: // RFC 2047 encoded words in the display name and in a comment whose decoded text is address syntax
+		hdr.Add("From", "=?utf-8?q?"+strings.ReplaceAll(f2.text, "@", "=40")+"_=28?= <"+f1.text+"> (=?utf-8?q?=29?=)")
+		fromAddrs = []c15Addr{f1}
 	}
 	var senderAddr *c15Addr
 	switch nondetChoice("sender", 3) {
